@@ -163,7 +163,49 @@ def _le(fx, a, b, strict, depth):
     # unsigned: 0 <= anything
     if a == ("const", 0) and not strict:
         return True
+    # linear consequence: the goal's slack exceeds a fact's slack by non-negative terms (all atoms are
+    # unsigned quantities: sizes, lengths, offsets)
+    if not strict:
+        eg = _lin(b, a)
+        if eg is not None:
+            for f in fx:
+                if f[0] in ("<=", "<", "=="):
+                    ef = _lin(f[2], f[1])
+                    if ef is None:
+                        continue
+                    dc = dict(eg[0])
+                    for k, v in ef[0].items():
+                        dc[k] = dc.get(k, 0) - v
+                    if all(v >= 0 for v in dc.values()) and eg[1] - ef[1] >= 0 and any(k in eg[0] or True for k in ef[0]) and ef[0]:
+                        # require that the fact actually constrains something the goal mentions
+                        if set(ef[0]) & set(eg[0]):
+                            return True
     return False
+
+
+def _lin(hi, lo):
+    """Linear form of hi - lo as ({atom: coef}, const); None if not linear."""
+    def lin(t):
+        if t[0] == "const":
+            return {}, t[1]
+        if t[0] == "op" and t[1] in ("+", "-"):
+            a = lin(t[2])
+            b = lin(t[3])
+            sg = 1 if t[1] == "+" else -1
+            out = dict(a[0])
+            for k, v in b[0].items():
+                out[k] = out.get(k, 0) + sg * v
+            return out, a[1] + sg * b[1]
+        if t[0] == "op" and t[1] == "*" and (t[2][0] == "const" or t[3][0] == "const"):
+            c, o = (t[2][1], t[3]) if t[2][0] == "const" else (t[3][1], t[2])
+            a = lin(o)
+            return {k: v * c for k, v in a[0].items()}, a[1] * c
+        return {t: 1}, 0
+    a, b = lin(hi), lin(lo)
+    out = dict(a[0])
+    for k, v in b[0].items():
+        out[k] = out.get(k, 0) - v
+    return {k: v for k, v in out.items() if v != 0}, a[1] - b[1]
 
 
 # ------------------------------------------------------------------------------------------
@@ -179,8 +221,9 @@ class Width:
     the mathematical value of n provided no sub-expression wrapped; wraps() lists the arithmetic
     nodes whose mathematical value may exceed their type."""
 
-    def __init__(self, fn):
+    def __init__(self, fn, field_bits=None):
         self.fn = fn
+        self.field_bits = field_bits or {}     # member name -> value bits established by a separate obligation
 
     def needed(self, i):
         fn = self.fn
@@ -190,6 +233,8 @@ class Width:
             return bits_of(nd["cv"])
         if k in ("IntegerLiteral", "CharacterLiteral", "CXXBoolLiteralExpr"):
             return bits_of(nd["v"])
+        if k == "MemberExpr" and nd.get("m") in self.field_bits:
+            return self.field_bits[nd["m"]]
         if k in WRAPPERS:
             ks = fn.kids(i)
             return self.needed(ks[0]) if ks else nd.get("iw", 64)
@@ -200,7 +245,8 @@ class Width:
             if iw is None:
                 return inner
             src = fn.n(ks[0]) if ks else {}
-            if src.get("is") and not nd.get("is") and "cv" not in src:
+            if src.get("is") and not nd.get("is") and "cv" not in src and not \
+                    (fn.n(fn.strip(ks[0])).get("k") == "MemberExpr" and fn.n(fn.strip(ks[0])).get("m") in self.field_bits):
                 # signed -> unsigned conversion of a possibly negative value fills the destination
                 if inner >= src.get("iw", 64):
                     return iw
